@@ -132,7 +132,9 @@ int _GD_TokToNum(const char *restrict token, int standards, int pedantic,
   /* the real part */
   errno = 0;
   ir = gd_strtoll(token, &endptr, base);
-  if (!errno && (*endptr == '\0' || *endptr == ';'))
+  /* an integer zero is left to strtod when a floating-point value is wanted,
+   * so that "-0" keeps its sign */
+  if (!errno && (*endptr == '\0' || *endptr == ';') && (ir != 0 || !re))
     rt = GD_INT64;
 
   if (rt == GD_UNKNOWN && errno == ERANGE) {
@@ -165,7 +167,7 @@ int _GD_TokToNum(const char *restrict token, int standards, int pedantic,
     token = endptr + 1;
     errno = 0;
     ii = gd_strtoll(token, &endptr, base);
-    if (!errno && *endptr == '\0')
+    if (!errno && *endptr == '\0' && (ii != 0 || !im))
       it = (ii == 0) ? GD_NULL : GD_INT64;
 
     if (it == GD_UNKNOWN && errno == ERANGE) {
@@ -207,7 +209,7 @@ int _GD_TokToNum(const char *restrict token, int standards, int pedantic,
 
     if (im) { /* complex */
       if (it == GD_NULL)
-        *im = 0;
+        *im = di; /* zero, with the sign the token had */
       else if (it == GD_FLOAT64)
         *im = di;
       else if (it == GD_INT64)
